@@ -71,7 +71,7 @@ def Field.value (a : C02.Args) : Field → Option (List Nat)
   | _ => none
 
 /-- dwords occupied by the enabled fields among `l` -/
-def usedBy (f : C02.Flags) (l : List Field) : Nat := ((l.filter (Field.enabled f)).map Field.size).sum
+def usedBy (f : C02.Flags) (l : List Field) : Nat := (l.map fun x => if x.enabled f then x.size else 0).sum
 
 /-- first SGPR of field `x`: the enabled fields before it, packed -/
 def abiIndex (f : C02.Flags) (x : Field) : Nat := usedBy f (Field.order.takeWhile (· != x))
